@@ -6,3 +6,5 @@ pub mod stubs;
 mod h_opt;
 #[cfg(kani)]
 mod h_gen;
+#[cfg(kani)]
+mod h_misc;
